@@ -97,12 +97,6 @@ func (e *Engine) Diagnostics(grouping bool) []analysis.Diagnostic {
 		return cmp.Compare(a.position.Offset, b.position.Offset)
 	})
 
-	conflicts := e.conflicts
-	if grouping {
-		// Group conflicts with the same nil path together for concise reporting.
-		conflicts = groupConflicts(e.conflicts, e.pass)
-	}
-
 	// Build diagnostics from conflicts. Apply cross-package nolint suppressions here as well.
 	nolintResult := e.pass.ResultOf[NoLintAnalyzer].(*analysishelper.Result[[]Range])
 	if nolintResult.Err != nil {
@@ -112,8 +106,10 @@ func (e *Engine) Diagnostics(grouping bool) []analysis.Diagnostic {
 
 	conf := e.pass.ResultOf[config.Analyzer].(*config.Config)
 
-	diagnostics := make([]analysis.Diagnostic, 0, len(conflicts))
-	for _, c := range conflicts {
+	// Filter out the suppressed conflicts _before_ grouping, such that a suppressed conflict
+	// never hides the similar conflicts that would otherwise be grouped under it.
+	conflicts := make([]conflict, 0, len(e.conflicts))
+	for _, c := range e.conflicts {
 		if slices.ContainsFunc(nolintRanges, func(r Range) bool {
 			return c.position.Filename == r.Filename && c.position.Line >= r.From && c.position.Line <= r.To
 		}) {
@@ -122,6 +118,16 @@ func (e *Engine) Diagnostics(grouping bool) []analysis.Diagnostic {
 		if conf.ExcludeTestFiles && involvesTestFile(c) {
 			continue
 		}
+		conflicts = append(conflicts, c)
+	}
+
+	if grouping {
+		// Group conflicts with the same nil path together for concise reporting.
+		conflicts = groupConflicts(conflicts, e.pass)
+	}
+
+	diagnostics := make([]analysis.Diagnostic, 0, len(conflicts))
+	for _, c := range conflicts {
 		diagnostics = append(diagnostics, analysis.Diagnostic{
 			Pos:     e.toPos(c.position),
 			Message: c.String(),
